@@ -248,6 +248,18 @@ class World:
                 lhs, rhs = self.pool[ln], self.pool[rn]
                 res = lhs.join(rhs, self.pred(px), backtrack=bt == "T", transfer=tr == "T")
                 return self.report(n, "same" if res is lhs else "new", res)
+            case ["joinp", n, ln, rn, px, ["opts", pref, bt, tr, req]]:
+                # a join with every option of `apply`: Join(pred).partial(rhs).apply(lhs, ...)
+                from lsst.daf.relation import Join
+                lhs, rhs = self.pool[ln], self.pool[rn]
+                res = Join(self.pred(px)).partial(rhs).apply(
+                    lhs,
+                    preferred_engine=None if pref == "-" else self.engines[pref],
+                    backtrack=bt == "T",
+                    transfer=tr == "T",
+                    require_preferred_engine=req == "T",
+                )
+                return self.report(n, "same" if res is lhs else "new", res)
             case ["joinon", n, ln, rn, cols, px, bt, tr]:
                 # explicit common columns: Join(pred, min_columns=S, max_columns=S).partial(rhs).apply(lhs, ...)
                 from lsst.daf.relation import Join
